@@ -30,3 +30,18 @@ VARIANTS = [
     silent("c18-def-wrapper",
            [(ST, FIXED, "            def ideal_unitary(*args, _unitary=gate.ideal_unitary):\n                return _unitary(*args[:-1])")], ("C18",)),
 ]
+
+ST18 = "src/jaqalpaq/core/stretch.py"
+VARIANTS += [
+    # reverting fix cc38cf1
+    fire("c18-stretched-keyed-by-none",
+         [(ST18, '        if suffix is None:\n            suffix = ""\n        new_name = gate.name + suffix\n', "        if suffix:\n            new_name = gate.name + suffix\n        else:\n            new_name = None\n")],
+         ("C18.3", "stretched_gates:result-key"), ("C18",)),
+]
+PA18 = "src/jaqalpaq/core/parameter.py"
+VARIANTS += [
+    # reverting fix b0b9c6e
+    fire("c18-validate-int-converts-value",
+         [(PA18, "            if (isinstance(value, float) and value.is_integer()) or isinstance(", "            if (isinstance(value, float) and int(value) == value) or isinstance(")],
+         ("C18.4", "Parameter.validate:int-branch-total"), ("C18",)),
+]
